@@ -15,7 +15,7 @@ RULE = ("(1) exhaustive: all connector tables with 3 entries over 2 connectors x
         "diff pairs, connector chains of length<=3 (conn= and explicit 'J_n:k' forms), attributes (incl. callables), clocks; "
         "histories of <=12 requests, dir mostly '-', some None/i/o/oe/io/dicts, xdr overrides, repeats; "
         "(3) malformed: invalid dir/xdr values and types, unknown resources, dangling connector pins, cyclic connectors "
-        "(real code run under a timer); (4) build: dummy iCE40/ECP5/Gowin platforms, Platform.build(do_build=False), "
+        "(NameError since bf3797f; real code still run under a safety timer); (4) build: dummy iCE40/ECP5/Gowin platforms, Platform.build(do_build=False), "
         ".pcf/.lpf/.cst parsed and compared with port_constraints/clock_constraints of the model. "
         "non-trivial = at least one request granted and at least one refused or a connector/diff/subsignal involved; "
         "distinct by case hash")
@@ -33,7 +33,7 @@ ASSUMPTIONS = ["names are mapped injectively to strings without ':' / '__' (a pl
 
 DIRS = ["i", "o", "oe", "io"]
 ERR = {"ResourceError": 1, "TypeError": 2, "ValueError": 3, "NameError": 4}
-HANG_TIMEOUT = 1.5
+HANG_TIMEOUT = 10.0   # safety net only: Pins.map_names terminates on cyclic tables since bf3797f
 
 
 # ------------------------------------------------------------------ name maps
@@ -655,7 +655,7 @@ def small_scope_maps():
         conns = [[c, e, "dict"] for c, e in ents.items() if e]
         for sub in (names, names[2:], names[3:]):
             case = {"k": "map", "conn": conns, "names": sub}
-            # only names whose resolution reaches a cycle hang; flag every table that contains one
+            # tables containing a connector cycle are flagged (classification; arms the safety timer)
             case["cyc"] = has_cycle(conns)
             out.append(case)
     return out
@@ -688,9 +688,7 @@ def gen_cases(tier, seed):
     maps = small_scope_maps()
     cyc = [c for c in maps if c["cyc"]]
     acy = [c for c in maps if not c["cyc"]]
-    ncyc = 48 if not thorough else 300
     rng.shuffle(cyc)
-    cyc = cyc[:ncyc]
     cases += acy
     cases += small_scope_hists()
     N = 1000 if not thorough else 8000
@@ -701,8 +699,8 @@ def gen_cases(tier, seed):
         tbl = gen_table(rng, rng.randrange(1, 9), npins, conns, bad)
         cases.append({"k": "hist", "tbl": tbl, "conn": conns, "cyc": False,
                       "hist": gen_history(rng, tbl, rng.randrange(1, 13), bad)})
-    # cyclic connector tables inside histories (few: each hang costs HANG_TIMEOUT)
-    for i in range(16 if not thorough else 150):
+    # cyclic connector tables inside histories
+    for i in range(100 if not thorough else 1500):
         npins = rng.randrange(3, 8)
         conns = gen_conns(rng, npins, True)
         tbl = gen_table(rng, rng.randrange(1, 5), npins, conns, False)
@@ -737,7 +735,7 @@ def gen_cases(tier, seed):
                     clk = None
             cases.append({"k": "build", "vendor": vendor, "tbl": tbl, "conn": conns, "hist": hist,
                           "default_clk": clk, "cyc": False})
-    # spread the cyclic map cases (each costs HANG_TIMEOUT in the implementation run) over the chunks
+    # spread the cyclic map cases over the chunks
     step = max(1, len(cases) // (len(cyc) + 1))
     for i, c in enumerate(cyc):
         cases.insert(min(len(cases), (i + 1) * step + i), c)
@@ -771,15 +769,6 @@ def nontrivial(c, obs):
     return granted and (-1 in obs or bool(c["conn"]) or any(n[0] == "G" or n[3][0] == "D" for _, n in c["tbl"]))
 
 
-def known_finding(c, obs, model):
-    """S4: connectors that refer to each other make Pins.map_names loop forever; the specification (and the
-    model answer, -3) demands an error, the implementation does not return (-2)."""
-    if c.get("cyc") and isinstance(obs, list) and obs and obs[-1] == -2 and model and model[-1] == -3 \
-            and list(obs[:-1]) == list(model[:-1]):
-        return "S4-cyclic-connectors-hang"
-    return None
-
-
 def explain(c):
     return ("per request: [1, value..., |phys_reqd|, |io_clocks|] or [-1, error(1 ResourceError 2 TypeError 3 ValueError "
-            "4 NameError), |phys_reqd|, |io_clocks|]; -2 = did not return, -3 = must be an error; 9 + final state")
+            "4 NameError), |phys_reqd|, |io_clocks|]; -2 = did not return (safety timer), -3 = model fuel exhausted (never); 9 + final state")
